@@ -363,7 +363,7 @@ func genAuthCase(t *rapid.T) AuthCase {
 		UserInfo: rapid.Bool().Draw(t, "userinfo"),
 		Methods:  rapid.Permutation([]int{0, 1, 2}).Draw(t, "methods")[:rapid.IntRange(1, 3).Draw(t, "nmethods")],
 	}
-	c.Perturb = rapid.SampledFrom([]string{"", "", "user", "pass", "realm", "nonce", "method", "algorithm", "url", "scheme", "setup-base", "setup-base-noslash", "legacy-md5"}).Draw(t, "perturb")
+	c.Perturb = rapid.SampledFrom([]string{"", "", "user", "pass", "realm", "nonce", "method", "algorithm", "url", "scheme", "setup-base", "setup-base-noslash", "base-other-method", "base-noslash-other-method", "legacy-md5"}).Draw(t, "perturb")
 	switch c.Perturb {
 	case "user":
 		c.Alt = differs(t, userGen, c.User, "alt")
@@ -386,7 +386,7 @@ func genAuthCase(t *rapid.T) AuthCase {
 		if strings.HasSuffix(c.Alt, "x") && c.Alt[:len(c.Alt)-1] == c.URL {
 			c.Alt = c.URL + "y"
 		}
-	case "setup-base", "setup-base-noslash":
+	case "setup-base", "setup-base-noslash", "base-other-method", "base-noslash-other-method":
 		c.Alt = rapid.StringMatching(`[0-9]{1,3}`).Draw(t, "track")
 		// base URL without a track suffix and without a query
 		c.URL = rapid.StringMatching(`rtsps?://(localhost|127\.0\.0\.1|\[::1\])(:[1-9][0-9]{1,3})?/[A-Za-z0-9_\-]{1,8}(/[A-Za-z0-9_\-]{1,8}){0,2}`).Draw(t, "baseurl")
